@@ -550,6 +550,8 @@ class UnionMetaType(StructureMetaType):
         object.__setattr__(obj, "_buf", buf)
 
         if cls.size is not None:
+            # The members are read from a copy of the union's bytes, pointers among them belong to the original stream
+            object.__setattr__(obj, "_stream", stream)
             obj._update()
 
         # Proxify any nested structures
@@ -629,6 +631,8 @@ class Union(Structure, metaclass=UnionMetaType):
 
     def _update(self) -> None:
         result, sizes = self.__class__._read_fields(io.BytesIO(self._buf))
+        for value in result.values():
+            _rebind_pointers(value, getattr(self, "_stream", None))
         self.__dict__.update(result)
         object.__setattr__(self, "_values", result)
         object.__setattr__(self, "_sizes", sizes)
@@ -648,6 +652,23 @@ class Union(Structure, metaclass=UnionMetaType):
                     _proxy_structure(nested_value, attr)
 
         _proxy_structure(self)
+
+
+def _rebind_pointers(value: Any, stream: BinaryIO | None) -> None:
+    """Attach every pointer in ``value``, which was read from a union's private copy of its bytes, to ``stream``."""
+    if isinstance(value, Pointer):
+        value._stream = stream
+    elif isinstance(value, list):
+        for entry in value:
+            _rebind_pointers(entry, stream)
+    elif isinstance(value, Structure):
+        if isinstance(value, Union):
+            object.__setattr__(value, "_stream", stream)
+        for field in value.__class__.__fields__:
+            nested = value.__dict__.get(field._name)
+            while isinstance(nested, UnionProxy):
+                nested = nested.__target__
+            _rebind_pointers(nested, stream)
 
 
 class UnionProxy:
